@@ -245,6 +245,18 @@ def run(ctx, n_quick=400, n_thorough=20000):
         ("absent", [{"op": "enter", "i": 0}, {"op": "enter", "i": 1}, {"op": "use", "i": 1}, {"op": "exit", "i": 0}, {"op": "use", "i": 0},
                     {"op": "exit", "i": 1}, {"op": "enter", "i": 0}, {"op": "use", "i": 0}]),
     ]
+    k1, k2 = "11" * 32, "22" * 32
+    corpus += [
+        # one object, two sessions, the file replaced by another valid key in between: the second session uses the new key
+        ({"data": k1}, [{"op": "enter", "i": 0}, {"op": "use", "i": 0}, {"op": "exit", "i": 0, "exc": False}, {"op": "write", "data": k2},
+                        {"op": "enter", "i": 0}, {"op": "use", "i": 0}, {"op": "exit", "i": 0, "exc": False}, {"op": "use", "i": 0}]),
+        ({"data": k1}, [{"op": "enter", "i": 0}, {"op": "use", "i": 0}, {"op": "exit", "i": 0, "exc": True}, {"op": "write", "data": k2},
+                        {"op": "enter", "i": 1}, {"op": "use", "i": 1}, {"op": "enter", "i": 0}, {"op": "use", "i": 0}]),
+        ({"data": k1}, [{"op": "enter", "i": 0}, {"op": "enter", "i": 0}, {"op": "exit", "i": 0, "exc": False}, {"op": "write", "data": k2},
+                        {"op": "use", "i": 0}, {"op": "exit", "i": 0, "exc": False}, {"op": "enter", "i": 0}, {"op": "use", "i": 0}]),
+        ("absent", [{"op": "enter", "i": 0}, {"op": "use", "i": 0}, {"op": "exit", "i": 0, "exc": False}, {"op": "delete"},
+                    {"op": "enter", "i": 0}, {"op": "use", "i": 0}, {"op": "exit", "i": 0, "exc": False}]),
+    ]
     n = ctx.n(n_quick, n_thorough)
     for i in range(n + len(corpus)):
         if i < len(corpus):
